@@ -6,7 +6,7 @@ import ast
 
 from .common import *  # noqa: F401,F403
 from .common import SVC, MOD, TIMEOUT, AbsInt, AnalysisError, Cls, Ctx, Facts, Registry, UNKNOWN, U, Unit, call_name, handler_type_names, own_nodes, own_nodes_with_lambdas, parent, q, where
-from .c01 import PATTERN_KINDS, on_key_for
+from .c01 import on_key_for, pattern_kinds
 
 ob = Registry()
 
@@ -85,7 +85,7 @@ def c18_2(c: Ctx) -> None:
     rm_stmt = q.stmt_of(rms[0])
     tr = next((t for t in q.ancestors_of(rms[0]) if isinstance(t, ast.Try) and q.lexically_in(rms[0], t, 'finalbody')), None)
     block = tr.finalbody if tr is not None else (q.block_of(rm_stmt) or [rm_stmt])
-    for desc, val, want in PATTERN_KINDS:
+    for desc, val, want in pattern_kinds(c):
         seen: list[object] = []
 
         def on_stmt(st, env, seen=seen):
